@@ -6,7 +6,7 @@
     importing build c' that may differ from the exporting one.  All theorems hold for EVERY store
     satisfying the node-table invariant, i.e. exported at any point of its life. *)
 From Coq Require Import NArith List Bool.
-From ADF Require Import Base.Maps Spec.Spec Bdd.Store Bdd.WF Bdd.Node Bdd.Rebuild Adf.Native Adf.NativeBase Adf.PersistProofs.
+From ADF Require Import Base.Maps Spec.Spec Gen.GenFlags Gen.TieFlagRepair Bdd.Store Bdd.WF Bdd.Node Bdd.Rebuild Bdd.Repair Adf.Native Adf.NativeBase Adf.PersistProofs.
 Import ListNotations.
 Local Open Scope N_scope.
 
@@ -66,9 +66,25 @@ Theorem C14_export_no_overwrite : forall (K V : Type) (keq : K -> K -> bool) (fs
 Proof. intros K V. exact (@export_no_overwrite K V). Qed.
 Print Assumptions C14_export_no_overwrite.
 
-(** side observation (not part of C14): the repair step must only be applied to a freshly imported
-    store - on a live store it appends a second copy of every variable set *)
+(** the defect repaired in /repo: the appending repair step of the pinned tree may only be applied to a freshly
+    imported store - on a live store it appends a second copy of every variable set and the invariant is lost *)
 Theorem C14_repair_on_live_store_breaks_it :
   WF cfg_default (init cfg_default) /\ ~ VdOK cfg_default (fix_import cfg_default (init cfg_default)).
 Proof. exact fix_import_on_live_store_refuted. Qed.
 Print Assumptions C14_repair_on_live_store_breaks_it.
+
+(** the repair step as the source has it now (Gen/TieFlagRepair.v, flag regenerated from obdd.rs) rebuilds the
+    variable sets from an empty table: applied to ANY store satisfying the invariant - live, or a second time
+    after an import - it returns a store satisfying the invariant with the same node table; fresh from an
+    import it is the step the theorems above are about *)
+Theorem C14_source_repair_rebuilds_from_scratch : g_fix_import_clears = true.
+Proof. exact fix_import_rebuilds_from_scratch. Qed.
+Print Assumptions C14_source_repair_rebuilds_from_scratch.
+Theorem C14_repair_of_any_store : forall c st, WF c st ->
+  WF c (fix_import_x true c st) /\ same_tab st (fix_import_x true c st).
+Proof. exact fix_import_repaired_wf. Qed.
+Print Assumptions C14_repair_of_any_store.
+Theorem C14_repair_after_import_is_the_same_step : forall b c l,
+  fix_import_x b c (import_raw l) = fix_import c (import_raw l).
+Proof. exact fix_import_x_import. Qed.
+Print Assumptions C14_repair_after_import_is_the_same_step.
